@@ -94,6 +94,111 @@ def count_paths(edges, init):
     return leaves(init)
 
 
+LB_CFG = """SPECIFICATION Spec
+CONSTANTS
+ Caps <- mcCaps
+ Free0 <- mcFree0
+ WSizes = {%(ws)s}
+ RSizes = {%(rs)s}
+ MaxMsg = %(maxmsg)d
+ MaxTotal = %(maxtotal)d
+ MaxOps = %(maxops)d
+ HeapMin = 4096
+VIEW View
+INVARIANTS Ledger LenRight CursorsRight NeverLast AllBackWhenDrained
+CHECK_DEADLOCK FALSE
+"""
+
+
+def real_counts(conf):
+    """buffers per class as createBufferManager lays them out (the same integer arithmetic)"""
+    region = conf['mem'] - 36 * len(conf['sizes']) - 8
+    return [(region * p // 100) // (sz + 20) for sz, p in zip(conf['sizes'], conf['percents'])]
+
+
+def lb_files(conf, ws, rs, mm, mt, mo):
+    counts = real_counts(conf)
+    free0 = [c if conf['leave'] < 0 else min(c, conf['leave'] + 1) for c in counts]
+    w = '---- MODULE MC_LinkedBuffer ----\nEXTENDS LinkedBuffer\nmcCaps == <<%s>>\nmcFree0 == <<%s>>\n====\n' % (
+        ', '.join(map(str, conf['sizes'])), ', '.join(map(str, free0)))
+    return {'MC_LinkedBuffer.tla': w, 'mc.cfg': LB_CFG % dict(ws=', '.join(map(str, ws)), rs=', '.join(map(str, rs)),
+                                                               maxmsg=mm, maxtotal=mt, maxops=mo)}
+
+
+def lb_expect(st):
+    def sl(v):
+        return list(v) if isinstance(v, (list, tuple)) else [v[k] for k in sorted(v)]
+    free = st['free']
+    free = list(free) if isinstance(free, list) else [free[k] for k in sorted(free)]
+    return {'free': free, 'ws': [[x['c'], x['w']] for x in st['ws']], 'wi': st['wi'],
+            'rs': [[x['c'], x['r'], x['w']] for x in st['rs']], 'rwi': st['rwi'], 'pinned': list(st['pinned']),
+            'cur': st['curPinned'], 'spare': st['spare']}
+
+
+def lb_edge(label, src, dst):
+    label = label.replace('\\', '')
+    m = re.match(r'(\w+)(?:\((.*)\))?', label)
+    act = m.group(1)
+    args = [a.strip().strip('"') for a in (m.group(2) or '').split(',') if a.strip()]
+    f, r, w = src['fpos'], src['rpos'], src['wpos']
+    if act == 'Write':
+        rec = [args[0], 'ab', int(args[1]), f + w, int(args[1])]
+    elif act == 'Flush':
+        rec = ['Flush', 'ab', w, f, w]
+    elif act in ('ReadBytes', 'Peek', 'Discard', 'ReadString'):
+        rec = [act, 'ab', int(args[0]), r, int(args[0])]
+    elif act == 'ReadByte':
+        rec = ['ReadByte', 'ab', 1, r, 1]
+    elif act == 'Read':
+        n = int(args[0])
+        rec = ['Read', 'ab', n, r, min(n, f - r)]
+    elif act in ('Release', 'Reuse'):
+        rec = [act, 'ab', 0, r, 0]
+    else:
+        raise ValueError(label)
+    return rec + [lb_expect(dst)]
+
+
+def structural(ck, prop, tier):
+    """slice-level conformance: every path of LinkedBuffer.tla's graph replayed on real streams, structure compared"""
+    plan = [('one4', 8), ('mix37', 16), ('one4x2', 16), ('one4x0', 24)] if tier == 'quick' else \
+           [('one4', 1), ('mix37', 2), ('one4x2', 2), ('one4x0', 4), ('mix37x1', 2)]
+    for name, stride in plan:
+        conf = CONFS[name]
+        res, nodes, edges, inits = tlc.dump_graph('MC_LinkedBuffer', 'mc.cfg', timeout=1200,
+                                                  extra_files=lb_files(conf, [1, 4, 5, 9], [1, 3, 4, 5, 9], 14, 18, 5))
+        if res.violation:
+            ck.inconc('TLC reports %s on the LinkedBuffer specification (%s)' % (res.violation, name))
+            return
+        if not res.ok or not edges:
+            ck.inconc('TLC did not complete on LinkedBuffer: %s' % (res.error or res.out[-300:]))
+            return
+        parsed = {k: tlaval.parse_state(v) for k, v in nodes.items()}
+        idx = {k: i for i, k in enumerate(parsed)}
+        jedges = [[idx[s], idx[d]] + lb_edge(label, parsed[s], parsed[d]) for s, d, label in edges]
+        off = ck.seed % stride
+        job = {'edges': jedges, 'init': idx[inits[0]], 'max_paths': -1, 'confs': [conf], 'histories': [],
+               'known_len': True, 'stride': stride, 'offset': off}
+        r = harness(ck, prop, job)
+        if r is None:
+            return
+        ck.add('states', res.distinct)
+        ck.add('transitions', len(edges))
+        ck.add('traces_validated_against_impl', r['struct_conforming_histories'])
+        ck.add('structure_comparisons', r['struct_checks'])
+        ck.add('histories_replayed', r['histories'])
+        ck.cov['tlc_configs'].append('LinkedBuffer (slice level) %s: %d states, %d transitions; every %d-th path replayed: %d histories, '
+                                     '%d structurally conforming, %d structure comparisons'
+                                     % (conf['name'], res.distinct, len(edges), stride, r['histories'],
+                                        r['struct_conforming_histories'], r['struct_checks']))
+        if r['drift_count']:
+            for d in r['drift']:
+                print('SPEC-DRIFT module=LinkedBuffer at=%s' % d[:700])
+            ck.cov['spec_drift'] = True
+        if ck.violations:
+            return
+
+
 def harness(ck, prop, job):
     g = gorun.run_harness('^TestVS_BytePipe$', HARNESS, None, inputs={'job': job}, timeout=3000)
     if g.result is None:
@@ -203,5 +308,8 @@ def run(prop, tier, seed, replay=None, ck=None, finish=True):
             ck.known('len-excludes-pending', known[('C06', 'len-excludes-pending')] + ' [witness on real code: %s]' % r['known_len_witness'])
         if ck.violations:
             break
+    if not ck.violations and prop in ('C06', 'C08'):
+        structural(ck, prop, tier)
     ck.cov['exhaustive'] = (tier == 'thorough')
+    ck.cov.setdefault('spec_drift', False)
     return fin()
